@@ -28,13 +28,13 @@ ASSUMPTIONS = ["float64 session", "'xy' indexing as numpy.meshgrid: coordinate 0
 def strata(tier):
     if tier == "quick":
         pairs = {
-            1: [(8, 9), (9, 8), (8, 16), (7, 12), (12, 7), (16, 8), (9, 15), (10, 10)],
+            1: [(8, 9), (9, 8), (8, 16), (7, 12), (12, 7), (16, 8), (9, 15), (10, 10), (98, 99), (196, 98)],  # 98, 196: N*fl(1/N) != 1
             2: [(6, 7), (7, 6), (5, 8), (8, 5), (6, 12), (9, 9)],
             3: [(4, 5), (5, 4), (4, 6), (5, 7), (6, 3)],
         }
     else:
         pairs = {
-            1: [(a, b) for a in (3, 4, 7, 8, 15, 16, 31) for b in (3, 4, 5, 8, 9, 16, 17, 30, 40)],
+            1: [(a, b) for a in (3, 4, 7, 8, 15, 16, 31) for b in (3, 4, 5, 8, 9, 16, 17, 30, 40)] + [(98, 99), (196, 98), (206, 103), (214, 215), (49, 98)],
             2: [(a, b) for a in (3, 4, 7, 8, 13) for b in (3, 4, 5, 8, 9, 14, 16)],
             3: [(a, b) for a in (3, 4, 5, 8) for b in (3, 4, 5, 6, 9, 10)],
         }
@@ -143,6 +143,13 @@ def check(case):
                 ok2, ub = res.lib("map", ex.map_between_resolutions, jnp.asarray(un), No, oddball_zero=oz, key=key)
                 if ok2:
                     res.claim("map:round_trip", np.max(np.abs(np.asarray(ub) - u)), tol, key=key + ":map")
+        # homogeneity: the resolution change is linear - a state of amplitude 1e-18 or 1e12 is mapped just the same (no
+        # absolute clean-up threshold)
+        if ok:
+            for cs in (1e-18, 1e12):
+                ok3, us = res.lib("map", ex.map_between_resolutions, jnp.asarray(cs * u), Nn, oddball_zero=oz, key=key)
+                if ok3 and np.asarray(us).shape == np.asarray(un).shape:
+                    res.claim("map:homogeneous", float(np.max(np.abs(np.asarray(us) / cs - un))), 1e-9 * (float(np.max(np.abs(un))) + 1e-300), key=key + ":map_homogeneity", msg="scale %g" % cs)
         ok, wn = res.lib("map", ex.map_between_resolutions, jnp.asarray(w), Nn, oddball_zero=oz, key=key)
         if ok:
             wn = np.asarray(wn)
